@@ -73,7 +73,7 @@ func (u *URL) UnmarshalJSON(b []byte) (err error) {
 		return errors.Error("empty json value for url")
 	}
 
-	if b[0] != '"' || b[l-1] != '"' {
+	if l < 2 || b[0] != '"' || b[l-1] != '"' {
 		// Try to create a type error with the Value field set.  If unable, just
 		// use the more general description of the value.
 		//
